@@ -95,6 +95,11 @@ func (r *DeviceLocal) HandleEvent(payload api.EventPayload) {
 		address := *payload.Feature.Address()
 		if address.Device == nil {
 			address.Device = remoteDevice.Address()
+			// subscriptions and bindings requested before the detailed discovery data was
+			// received refer to this feature, they are matched by its complete address
+			if feature, ok := payload.Feature.(*FeatureRemote); ok {
+				feature.completeDeviceAddress(remoteDevice.Address())
+			}
 		}
 		_, _ = r.nodeManagement.SubscribeToRemote(&address)
 
